@@ -2,8 +2,9 @@
 // harness bodies as package c19b (verif/sched/c19b/body), but built WITHOUT
 // the overlay (real sync, real goroutines) and WITH `go build -race`, because
 // the hand-offs of a cooperative scheduler are happens-before edges that blind
-// the race detector.  Usage: c19race <reps> [quick|thorough]: every thread set
-// is run <reps> times.  Prints a JSON summary on stdout; race reports go to
+// the race detector.  Usage: c19race <reps> [quick|thorough] [seconds]: every
+// thread set is run <reps> times, in rounds over all thread sets, until the
+// time budget is used up.  Prints a JSON summary on stdout; race reports go to
 // stderr.  A race report or an oracle mismatch here is a violation CANDIDATE
 // only (the caller looks for a SCHED schedule of the same class).
 package main
@@ -15,6 +16,7 @@ import (
 	"runtime"
 	"strconv"
 	"sync"
+	"time"
 
 	"verif/sched/c19b/body"
 )
@@ -54,17 +56,25 @@ func main() {
 		reps, _ = strconv.Atoi(os.Args[1])
 	}
 	quick := !(len(os.Args) > 2 && os.Args[2] == "thorough")
-	runs := 0
+	deadline := time.Now().Add(time.Hour)
+	if len(os.Args) > 3 {
+		sec, _ := strconv.Atoi(os.Args[3])
+		deadline = time.Now().Add(time.Duration(sec) * time.Second)
+	}
+	runs, rounds := 0, 0
 	mism := map[string]string{}
-	outcomes := map[string]int{}
-	for _, sc := range body.Scenarios(quick) {
-		seen := map[string]bool{}
-		for r := 0; r < reps; r++ {
+	seen := map[string]map[string]bool{}
+	scs := body.Scenarios(quick)
+	for r := 0; r < reps && (r == 0 || time.Now().Before(deadline)); r++ {
+		for _, sc := range scs {
 			var lg body.Log
 			var panics []string
 			body.Run(sc, spawn(&panics), &lg)
 			runs++
-			seen[lg.String()] = true
+			if seen[sc.Name] == nil {
+				seen[sc.Name] = map[string]bool{}
+			}
+			seen[sc.Name][lg.String()] = true
 			if len(panics) > 0 {
 				mism["panic/"+sc.Shape()] = fmt.Sprintf("thread set %s: %v after %s", sc.Name, panics, lg.String())
 				continue
@@ -73,8 +83,12 @@ func main() {
 				mism[v.Kind+"/"+v.Shape] = fmt.Sprintf("thread set %s: %s", sc.Name, v.Detail)
 			}
 		}
-		outcomes[sc.Name] = len(seen)
+		rounds++
 	}
-	b, _ := json.Marshal(map[string]interface{}{"runs": runs, "mismatches": mism, "reps_per_thread_set": reps, "distinct_outcomes_per_thread_set": outcomes})
+	outcomes := map[string]int{}
+	for k, v := range seen {
+		outcomes[k] = len(v)
+	}
+	b, _ := json.Marshal(map[string]interface{}{"runs": runs, "mismatches": mism, "reps_per_thread_set": rounds, "reps_requested": reps, "distinct_outcomes_per_thread_set": outcomes})
 	fmt.Println(string(b))
 }
